@@ -1,10 +1,57 @@
 (* C09 — Client keeps QoS>=1 publishes until acked; futures resolve truthfully and always.
-   Only statements, `exact`, and Print Assumptions. *)
+   Only statements, `exact`, and Print Assumptions.  The statements are in Client/ClientSpec.v
+   (C09_future_truthful_partial_statement next to its proof in Client/ClientTruth.v); they
+   quantify over every trace accepted by the CL monitor Client.step: every broker behaviour, every
+   interleaving of API callers, processor, pinger and die body, every failure of a Conn or Session
+   call, any number of Client incarnations on one session. *)
 From Coq Require Import List NArith.
-From GM Require Import Base.Lts Codec.Packet Session.Store Client.Future Client.Client Client.ClientSpec Client.ClientWitness.
+From GM Require Import Base.Lts Codec.Packet Session.Store Client.Future Client.Client Client.ClientSpec
+  Client.ClientWitness Client.ClientInvSbs Client.ClientInvRx Client.ClientKept Client.ClientTruth Client.ClientTotal.
 Import ListNotations.
 Open Scope N_scope.
 
+(* SavePacket(Outgoing, PUBLISH id) succeeded before any Send of that PUBLISH, first or repeated *)
+Theorem C09_store_before_send : C09_store_before_send_statement.
+Proof. exact store_before_send. Qed.
+Print Assumptions C09_store_before_send.
+
+(* an outgoing entry changes only by: DUP set by the resend loop; DeletePacket while an acknowledgement
+   carrying its id is being processed; the PUBREL replacing it on PUBREC; a clean-session Reset; a new
+   request saved under the same id *)
+Theorem C09_kept_until_acked : C09_kept_until_acked_statement.
+Proof. exact kept_until_acked. Qed.
+Print Assumptions C09_kept_until_acked.
+
+(* after CONNACK accepted the processor retransmits the whole outgoing store in store order, DUP on
+   PUBLISH, PUBREL as such, and does nothing else in between *)
+Theorem C09_resend_on_connect : C09_resend_on_connect_statement.
+Proof. exact resend_on_connect. Qed.
+Print Assumptions C09_resend_on_connect.
+
+(* history form of truthfulness (marks in the received/sent logs): evaluated on every observed trace by
+   the extracted checker Client.truthful_ok; the proved theorem is the step form below *)
+Definition C09_future_truthful_statement : Prop := ClientSpec.C09_future_truthful_statement.
+
+(* a future turns Completed only while the processor handles an acknowledgement (the last packet
+   received) carrying the id it is stored under / a CONNACK accepted in state connecting / in the QoS 0
+   publish call after Send returned nil *)
+Theorem C09_future_truthful_partial : C09_future_truthful_partial_statement.
+Proof. exact future_truthful_partial. Qed.
+Print Assumptions C09_future_truthful_partial.
+
+(* quiescence: client ended, nothing left to run, store unprotected: no stored future is pending;
+   a Close/Disconnect on a client whose goroutines were never started can return *)
+Theorem C09_future_total : C09_future_total_statement.
+Proof. exact future_total. Qed.
+Print Assumptions C09_future_total.
+
+(* the typed accessors return a value for every result value, nil included *)
 Theorem C09_accessors_total : C09_accessors_total_statement.
 Proof. exact accessors_total. Qed.
 Print Assumptions C09_accessors_total.
+
+(* non-vacuity: Connect, CONNACK, Publish(QoS 1), PUBACK, future completed, Disconnect — accepted, all
+   boolean checkers true, quiescent *)
+Example C09_nonvacuous : exists s, run step init witness_roundtrip = Some s /\
+  store_before_send_ok s = true /\ truthful_ok s = true /\ quiescent s = true /\ pending_futures s = [].
+Proof. exact roundtrip_accepted. Qed.
